@@ -35,20 +35,39 @@ Theorem C19_topic_grammar : forall t : list Z,
 Proof. exact topic_grammar. Qed.
 Print Assumptions C19_topic_grammar.
 
-(* 2. publish(): which exception, exactly when (ValueError wins over TypeError when both apply) *)
-Theorem C19_publish_rejects : forall v t q k n,
-  (publish_args_check v t q k n = Raise ValueError <->
-     topic_bad v t \/ q < 0 \/ 2 < q \/ (payload_supported k = true /\ 268435455 < n))
-  /\ (publish_args_check v t q k n = Raise TypeError <->
+(* 2. publish(): which exception, exactly when (ValueError wins over TypeError when both apply).
+   The size condition is the MQTT one: the PUBLISH packet (2 + topic + packet id + v5 properties +
+   payload) must fit the 268,435,455-byte Remaining Length. *)
+Theorem C19_publish_rejects : forall v t q k n pl,
+  (publish_args_check v t q k n pl = Raise ValueError <->
+     topic_bad v t \/ q < 0 \/ 2 < q \/
+     (payload_supported k = true /\ 268435455 < spec_publish_remaining_length v t q n pl))
+  /\ (publish_args_check v t q k n pl = Raise TypeError <->
      ~ topic_bad v t /\ 0 <= q <= 2 /\ k = POther)
-  /\ (publish_args_check v t q k n = Ok 0 <->
-     ~ topic_bad v t /\ 0 <= q <= 2 /\ k <> POther /\ n <= 268435455).
+  /\ (publish_args_check v t q k n pl = Ok 0 <->
+     ~ topic_bad v t /\ 0 <= q <= 2 /\ k <> POther /\ spec_publish_remaining_length v t q n pl <= 268435455).
 Proof. exact publish_rejects. Qed.
 Print Assumptions C19_publish_rejects.
 
-(* arguments the publish() documentation allows are never rejected, and only those are accepted *)
-Theorem C19_publish_accepts_documented : forall v t q k n,
-  publish_args_check v t q k n = Ok 0 <-> spec_publish_ok v t q k n = true.
+(* every payload over 268,435,455 bytes raises ValueError, whatever the other arguments *)
+Theorem C19_publish_payload_over_limit : forall v t q k n pl,
+  payload_supported k = true -> 0 <= pl -> 268435455 < n ->
+  publish_args_check v t q k n pl = Raise ValueError.
+Proof. exact publish_payload_over_limit. Qed.
+Print Assumptions C19_publish_payload_over_limit.
+
+(* and size is a reason for rejection only when the packet could not be encoded: with valid topic,
+   QoS and payload type everything up to 268435451 - len(topic) - len(properties) bytes is accepted *)
+Theorem C19_publish_payload_fits : forall v t q k n pl,
+  ~ topic_bad v t -> 0 <= q <= 2 -> k <> POther ->
+  n + Z.of_nat (length t) + (if is_v5 v then pl else 0) <= 268435451 ->
+  publish_args_check v t q k n pl = Ok 0.
+Proof. exact publish_payload_fits. Qed.
+Print Assumptions C19_publish_payload_fits.
+
+(* arguments the publish() contract allows are never rejected, and only those are accepted *)
+Theorem C19_publish_accepts_documented : forall v t q k n pl,
+  publish_args_check v t q k n pl = Ok 0 <-> spec_publish_ok v t q k n pl = true.
 Proof. exact publish_accepts_documented. Qed.
 Print Assumptions C19_publish_accepts_documented.
 
@@ -77,7 +96,23 @@ Theorem C19_subscribe_accepts_only_valid : forall v a l,
 Proof. exact subscribe_accepts_only_valid. Qed.
 Print Assumptions C19_subscribe_accepts_only_valid.
 
-(* unsubscribe(): rejected exactly when the argument is not a non-empty string or a list of such *)
+(* on a connected client _send_subscribe additionally refuses (before taking a packet id) a request
+   whose SUBSCRIBE packet would exceed the 268,435,455-byte Remaining Length; nothing else *)
+Theorem C19_subscribe_connected_exact : forall v pl a,
+  (exists k, subscribe_connected v pl a = Raise k) <->
+  documented_ok v a = false \/
+  268435455 < spec_subscribe_remaining_length v pl (documented_request v a).
+Proof. exact subscribe_connected_exact. Qed.
+Print Assumptions C19_subscribe_connected_exact.
+
+(* which cannot happen below 4096 filters *)
+Theorem C19_subscribe_connected_small_fits : forall v pl a,
+  documented_ok v a = true -> Z.of_nat (length (documented_request v a)) <= 4095 -> pl <= 57343 ->
+  subscribe_connected v pl a = Ok (documented_request v a).
+Proof. exact subscribe_connected_small_fits. Qed.
+Print Assumptions C19_subscribe_connected_small_fits.
+
+(* unsubscribe(): rejected exactly when the argument is not a non-empty string or a non-empty list of such *)
 Theorem C19_unsubscribe_exact : forall a,
   (exists k, unsubscribe_norm a = Raise k) <-> unsub_documented_ok a = false.
 Proof. exact unsubscribe_exact. Qed.
@@ -102,16 +137,30 @@ Example C19_filter_length_boundary :
 Proof. split; vm_compute; reflexivity. Qed.
 
 Example C19_publish_examples :
-  publish_args_check V311 [97;47;98] 1 PBytes 3 = Ok 0
-  /\ publish_args_check V311 [] 0 PNone 0 = Raise ValueError
-  /\ publish_args_check V5 [] 0 PNone 0 = Ok 0
-  /\ publish_args_check V311 [97;47;43] 0 PStr 1 = Raise ValueError
-  /\ publish_args_check V311 [97] 3 PStr 1 = Raise ValueError
-  /\ publish_args_check V311 [97] (-1) PStr 1 = Raise ValueError
-  /\ publish_args_check V311 [97] 2 POther 0 = Raise TypeError
-  /\ publish_args_check V311 [97;35] 2 POther 0 = Raise ValueError
-  /\ publish_args_check V5 [97] 0 PBytearray 268435455 = Ok 0
-  /\ publish_args_check V5 [97] 0 PBytearray 268435456 = Raise ValueError.
+  publish_args_check V311 [97;47;98] 1 PBytes 3 1 = Ok 0
+  /\ publish_args_check V311 [] 0 PNone 0 1 = Raise ValueError
+  /\ publish_args_check V5 [] 0 PNone 0 1 = Ok 0
+  /\ publish_args_check V311 [97;47;43] 0 PStr 1 1 = Raise ValueError
+  /\ publish_args_check V311 [97] 3 PStr 1 1 = Raise ValueError
+  /\ publish_args_check V311 [97] (-1) PStr 1 1 = Raise ValueError
+  /\ publish_args_check V311 [97] 2 POther 0 1 = Raise TypeError
+  /\ publish_args_check V311 [97;35] 2 POther 0 1 = Raise ValueError
+  /\ publish_args_check V311 [97] 0 PBytearray 268435452 1 = Ok 0             (* 2+1+268435452 = 268435455 *)
+  /\ publish_args_check V311 [97] 0 PBytearray 268435453 1 = Raise ValueError
+  /\ publish_args_check V311 [97] 1 PBytearray 268435450 1 = Ok 0             (* + 2 bytes packet id *)
+  /\ publish_args_check V311 [97] 1 PBytearray 268435451 1 = Raise ValueError
+  /\ publish_args_check V5 [97] 2 PBytes 268435449 1 = Ok 0                   (* + 1 byte properties *)
+  /\ publish_args_check V5 [97] 2 PBytes 268435450 1 = Raise ValueError
+  /\ publish_args_check V5 [] 0 PBytes 268435452 1 = Ok 0
+  /\ publish_args_check V5 [97] 0 PBytearray 268435456 1 = Raise ValueError.
+Proof. vm_compute. repeat split; reflexivity. Qed.
+
+Example C19_unsubscribe_examples :
+  unsubscribe_norm (UItem (IStr [97;47;35])) = Ok [[97;47;35]]
+  /\ unsubscribe_norm (UList [IStr [97]; IStr [98]]) = Ok [[97]; [98]]
+  /\ unsubscribe_norm (UList []) = Raise ValueError
+  /\ unsubscribe_norm (UItem (IStr [])) = Raise ValueError
+  /\ unsubscribe_norm (UItem INone) = Raise ValueError.
 Proof. vm_compute. repeat split; reflexivity. Qed.
 
 (* the six documented calling conventions are accepted (3: the form fixed by F-C19a) *)
